@@ -257,6 +257,8 @@ def run_job(job):
         gs = G.init(jax.random.PRNGKey(job.get("seed", 0)), starting_eps=e, starting_step=p0)
         if asyncinfo and job.get("replay_rng", True):
             gs = gs.replace(rng=FrozenDict({n: asyncinfo["gs0"].rng[n] for n in names}))
+            if cfg.get("adaptive_params") or cfg.get("rng_params"):      # the replay starts from the recorded episode's initial params as well
+                gs = gs.replace(params=FrozenDict({n: asyncinfo["gs0"].params[n] for n in names}))
         ep = dict()
         try:
             gsr = G.init_record(gs, **{k: recflags.get(k, False) for k in ("params", "rng", "inputs", "state", "output")})
